@@ -273,13 +273,15 @@ def zclosed(ctx, data, prs, case):
 # ------------------------------------------------------------------------------------------ operations
 
 
-def start_deck(rng):
+def start_deck(rng, force=None):
     from pptx import Presentation
     from pptx.opc.packuri import PackURI
 
     prs = Presentation()
     kind = rng.choice(["default", "default", "scrambled", "scrambled", "jump-only-slide", "foreign-part-rels", "foreign-names-and-duplicate-rels",
                        "absolute-targets"])
+    if force:
+        kind = force[0]
     if kind == "absolute-targets":
         # part-level relationships spelled as other producers spell them: Target="/ppt/media/image1.png" (root-absolute)
         for k in range(rng.randint(1, 3)):
@@ -311,14 +313,17 @@ def start_deck(rng):
         b = io.BytesIO(); prs.save(b)
         z = zipfile.ZipFile(io.BytesIO(b.getvalue()))
         o = io.BytesIO()
+        odd = rng.choice(["Picture%201.png", "team photo.png", "a b%20c.png"])   # a literal percent escape, a literal blank, both
+        if force and len(force) > 1:
+            odd = force[1]
         with zipfile.ZipFile(o, "w", zipfile.ZIP_DEFLATED) as zo:
             for n in z.namelist():
                 data = z.read(n)
                 if n == "ppt/media/image1.png":
-                    n = "ppt/media/Picture%201.png"
+                    n = "ppt/media/" + odd
                 if n == "ppt/slides/_rels/slide1.xml.rels":
-                    t = data.decode("utf-8").replace("../media/image1.png", "../media/Picture%201.png")
-                    m = re.search(r'<Relationship [^>]*media/Picture%201.png[^>]*/>', t)
+                    t = data.decode("utf-8").replace("../media/image1.png", "../media/" + odd)
+                    m = re.search(r'<Relationship [^>]*media/%s[^>]*/>' % re.escape(odd), t)
                     if m:
                         rid = re.search(r'Id="(rId\d+)"', m.group(0)).group(1)
                         t = t.replace("</Relationships>", m.group(0).replace('Id="%s"' % rid, 'Id="rId77"') + "</Relationships>")
@@ -664,10 +669,10 @@ def predicted(ctx, prs, st, desc, pre, pre_parts, post, post_parts, ids):
     return line, want, {"op": op, "desc": desc}
 
 
-def run_history(ctx, rng, thorough=False):
+def run_history(ctx, rng, thorough=False, force=None):
     from pptx import Presentation
 
-    prs, kind = start_deck(rng)
+    prs, kind = start_deck(rng, force)
     st = {"charts": [], "runs": [], "actions": []}
     ids = Ids()
     snap, snap_parts = snapshot(prs)
@@ -827,8 +832,11 @@ def correspond(ctx):
     rng = ctx.rng
     lines, hists = [], []
     n = 60 if ctx.quick else 1000
-    for _ in range(n):
-        res = run_history(ctx, rng, thorough=not ctx.quick)
+    # every kind of start deck, and every odd part name, in every run (the rest is sampled)
+    forced = [("foreign-names-and-duplicate-rels", o) for o in ("Picture%201.png", "team photo.png", "a b%20c.png")] + \
+             [(k,) for k in ("absolute-targets", "jump-only-slide", "foreign-part-rels", "scrambled")]
+    for hi in range(n):
+        res = run_history(ctx, rng, thorough=not ctx.quick, force=forced[hi] if hi < len(forced) else None)
         if res is None:
             continue
         line, hist = res
